@@ -1,7 +1,8 @@
 /-
   StatsCI.Lemmas.Total — helper lemmas for C06 (critical values) and C11 (totality):
   law classes for comparison and counting, the closed forms of `zValue`/`tValue`/`intervalBounds`,
-  the result shapes of `intervalOfKind`/`finish`, list-level facts about the `extend` loops,
+  the result shapes of `intervalOfKind`/`finish`/`finishWilson` (the clamp of `ci_wilson`: on `XR` and on
+  rounded reals every `Ok` lies inside `[0, 1]`), list-level facts about the `extend` loops,
   and propagation of non-finite data through the Kahan registers on `XR`.
 -/
 import StatsCI.Lemmas.XR
@@ -173,6 +174,48 @@ theorem Proportion.finish_eq_err [Scalar W] {conf : Confidence W} {m s : W} {e :
     | (rcases liftI_new_cases (W := W) (zero : W) (add m s) with ⟨h1, _⟩ | ⟨h1, _⟩ <;>
         rw [h1] at h <;> cases h; rfl)
 
+/-! `finishWilson` (the clamped constructor at the end of `ci_wilson`): the same three facts, with the
+    clamped bounds `fmax (m − s) 0` and `fmin (m + s) 1` in the place of `m − s` and `m + s` -/
+
+theorem Proportion.finishWilson_isPanic [Scalar W] (conf : Confidence W) (m s : W) :
+    (Proportion.finishWilson conf m s).isPanic = false := by
+  cases conf <;> simp [Proportion.finishWilson, liftI_isPanic]
+
+/-- every `Ok` of the clamped constructor is two-sided with `¬ lo > hi`; the bounds are the clamped
+    Wilson numbers resp. the far ends `0`, `1` -/
+theorem Proportion.finishWilson_eq_ok [Scalar W] {conf : Confidence W} {m s : W} {i : Interval W}
+    (h : Proportion.finishWilson conf m s = .ok i) :
+    ∃ lo hi, i = .twoSided lo hi ∧ gt lo hi = false ∧
+      (conf.kind = .twoSided → lo = fmax (sub m s) zero ∧ hi = fmin (add m s) one) ∧
+      (conf.kind = .upper → lo = fmax (sub m s) zero ∧ hi = one) ∧
+      (conf.kind = .lower → lo = zero ∧ hi = fmin (add m s) one) := by
+  cases conf <;> simp only [Proportion.finishWilson] at h <;>
+    obtain ⟨h1, h2⟩ := liftI_new_eq_ok h <;>
+    exact ⟨_, _, h1, h2, by simp [Confidence.kind]⟩
+
+/-- the only error of the clamped constructor is `InvalidBounds`, and it means exactly that the
+    (clamped) low bound compares above the (clamped) high bound -/
+theorem Proportion.finishWilson_eq_err' [Scalar W] {conf : Confidence W} {m s : W} {e : Err W}
+    (h : Proportion.finishWilson conf m s = .err e) :
+    e = .interval .invalidBounds ∧ ∃ lo hi, gt lo hi = true ∧
+      (conf.kind = .twoSided → lo = fmax (sub m s) zero ∧ hi = fmin (add m s) one) ∧
+      (conf.kind = .upper → lo = fmax (sub m s) zero ∧ hi = one) ∧
+      (conf.kind = .lower → lo = zero ∧ hi = fmin (add m s) one) := by
+  cases conf <;> simp only [Proportion.finishWilson] at h
+  · rcases liftI_new_cases (W := W) (fmax (sub m s) zero) (fmin (add m s) one) with
+      ⟨h1, _⟩ | ⟨h1, h2⟩ <;> rw [h1] at h <;> cases h
+    exact ⟨rfl, _, _, h2, by simp [Confidence.kind]⟩
+  · rcases liftI_new_cases (W := W) (fmax (sub m s) zero) (one : W) with
+      ⟨h1, _⟩ | ⟨h1, h2⟩ <;> rw [h1] at h <;> cases h
+    exact ⟨rfl, _, _, h2, by simp [Confidence.kind]⟩
+  · rcases liftI_new_cases (W := W) (zero : W) (fmin (add m s) one) with
+      ⟨h1, _⟩ | ⟨h1, h2⟩ <;> rw [h1] at h <;> cases h
+    exact ⟨rfl, _, _, h2, by simp [Confidence.kind]⟩
+
+theorem Proportion.finishWilson_eq_err [Scalar W] {conf : Confidence W} {m s : W} {e : Err W}
+    (h : Proportion.finishWilson conf m s = .err e) : e = .interval .invalidBounds :=
+  (Proportion.finishWilson_eq_err' h).1
+
 end shapes
 
 /-! ## critical values: `zValue`, `tValue`, `critReq`, `intervalBounds` -/
@@ -329,7 +372,7 @@ theorem ciWilson_of_few_failures (crit : Crit W) (conf : Confidence W) {n k : Na
 theorem ciWilson_of_guards (crit : Crit W) (conf : Confidence W) {n k : Nat} (h : k ≤ n)
     (h2 : 2 ≤ k) (h3 : 2 ≤ n - k) :
     ciWilson crit conf n k = (zValue crit conf).bind fun z =>
-      finish conf (wilsonCentre (Scalar.ofNat n) (Scalar.ofNat k) z)
+      finishWilson conf (wilsonCentre (Scalar.ofNat n) (Scalar.ofNat k) z)
         (wilsonSpan (Scalar.ofNat n) (Scalar.ofNat k) z) := by
   simp [ciWilson, Nat.not_lt.mpr h, Nat.not_lt.mpr h2, Nat.not_lt.mpr h3]
 
@@ -338,7 +381,7 @@ theorem ciWilson_cases (crit : Crit W) (conf : Confidence W) (n k : Nat) :
     ciWilson crit conf n k = .err (.tooFewSuccesses k n (Scalar.ofNat k)) ∨
     ciWilson crit conf n k = .err (.tooFewFailures (n - k) n (sub (Scalar.ofNat n) (Scalar.ofNat k))) ∨
     (k ≤ n ∧ 2 ≤ k ∧ 2 ≤ n - k ∧ ciWilson crit conf n k = (zValue crit conf).bind fun z =>
-      finish conf (wilsonCentre (Scalar.ofNat n) (Scalar.ofNat k) z)
+      finishWilson conf (wilsonCentre (Scalar.ofNat n) (Scalar.ofNat k) z)
         (wilsonSpan (Scalar.ofNat n) (Scalar.ofNat k) z)) := by
   by_cases h : n < k
   · exact Or.inl (ciWilson_of_gt crit conf h)
@@ -355,7 +398,7 @@ theorem ciWilson_isPanic (crit : Crit W) (conf : Confidence W) (n k : Nat)
     (hq : probOk conf.quantile = true) : (ciWilson crit conf n k).isPanic = false := by
   rcases ciWilson_cases crit conf n k with h | h | h | ⟨_, _, _, h⟩ <;> rw [h] <;> try rfl
   rw [zValue_eq crit conf hq]
-  exact finish_isPanic _ _ _
+  exact finishWilson_isPanic _ _ _
 
 /-- the only panic of `ci_wilson`: the guards pass and `inverse_cdf` rejects the probability -/
 theorem ciWilson_isPanic_iff (crit : Crit W) (conf : Confidence W) (n k : Nat) :
@@ -384,8 +427,51 @@ theorem ciWilson_eq_ok {crit : Crit W} {conf : Confidence W} {n k : Nat} {i : In
     try cases h
   by_cases hq : probOk conf.quantile = true
   · rw [zValue_eq crit conf hq] at h
-    obtain ⟨lo, hi, hi1, hi2, _⟩ := finish_eq_ok h
+    obtain ⟨lo, hi, hi1, hi2, _⟩ := finishWilson_eq_ok h
     exact ⟨h1, h2, h3, hq, lo, hi, hi1, hi2⟩
+  · rw [zValue_panic crit conf (by simpa using hq)] at h; cases h
+
+/-- an `Ok` of `ci_wilson` is the `Ok` of the clamped constructor on the Wilson numbers at the one
+    critical value the oracle supplies -/
+theorem ciWilson_eq_ok' {crit : Crit W} {conf : Confidence W} {n k : Nat} {i : Interval W}
+    (h : ciWilson crit conf n k = .ok i) :
+    k ≤ n ∧ 2 ≤ k ∧ 2 ≤ n - k ∧ probOk conf.quantile = true ∧
+    finishWilson conf (wilsonCentre (Scalar.ofNat n) (Scalar.ofNat k) (crit (.z conf.quantile)))
+      (wilsonSpan (Scalar.ofNat n) (Scalar.ofNat k) (crit (.z conf.quantile))) = .ok i := by
+  obtain ⟨h1, h2, h3, hq, _⟩ := ciWilson_eq_ok h
+  rw [ciWilson_of_guards crit conf h1 h2 h3, zValue_eq crit conf hq] at h
+  exact ⟨h1, h2, h3, hq, h⟩
+
+/-- the `InvalidBounds` error of `ci_wilson` means that the clamped low bound compares above the
+    clamped high bound (resp. above `1`, resp. `0` above the clamped high bound) -/
+theorem ciWilson_eq_invalidBounds {crit : Crit W} {conf : Confidence W} {n k : Nat}
+    (h : ciWilson crit conf n k = .err (.interval .invalidBounds)) :
+    k ≤ n ∧ 2 ≤ k ∧ 2 ≤ n - k ∧ probOk conf.quantile = true ∧ ∃ lo hi : W, gt lo hi = true ∧
+      (conf.kind = .twoSided →
+        lo = fmax (sub (wilsonCentre (Scalar.ofNat n) (Scalar.ofNat k) (crit (.z conf.quantile)))
+          (wilsonSpan (Scalar.ofNat n) (Scalar.ofNat k) (crit (.z conf.quantile)))) zero ∧
+        hi = fmin (add (wilsonCentre (Scalar.ofNat n) (Scalar.ofNat k) (crit (.z conf.quantile)))
+          (wilsonSpan (Scalar.ofNat n) (Scalar.ofNat k) (crit (.z conf.quantile)))) one) ∧
+      (conf.kind = .upper →
+        lo = fmax (sub (wilsonCentre (Scalar.ofNat n) (Scalar.ofNat k) (crit (.z conf.quantile)))
+          (wilsonSpan (Scalar.ofNat n) (Scalar.ofNat k) (crit (.z conf.quantile)))) zero ∧
+        hi = one) ∧
+      (conf.kind = .lower → lo = zero ∧
+        hi = fmin (add (wilsonCentre (Scalar.ofNat n) (Scalar.ofNat k) (crit (.z conf.quantile)))
+          (wilsonSpan (Scalar.ofNat n) (Scalar.ofNat k) (crit (.z conf.quantile)))) one) := by
+  by_cases h1 : n < k
+  · rw [ciWilson_of_gt crit conf h1] at h; cases h
+  have h1 : k ≤ n := by omega
+  by_cases h2 : k < 2
+  · rw [ciWilson_of_few_successes crit conf h1 h2] at h; cases h
+  have h2 : 2 ≤ k := by omega
+  by_cases h3 : n - k < 2
+  · rw [ciWilson_of_few_failures crit conf h1 h2 h3] at h; cases h
+  have h3 : 2 ≤ n - k := by omega
+  rw [ciWilson_of_guards crit conf h1 h2 h3] at h
+  by_cases hq : probOk conf.quantile = true
+  · rw [zValue_eq crit conf hq] at h
+    exact ⟨h1, h2, h3, hq, (finishWilson_eq_err' h).2⟩
   · rw [zValue_panic crit conf (by simpa using hq)] at h; cases h
 
 /-- every error of `ci_wilson` is one of the four documented classes -/
@@ -408,7 +494,7 @@ theorem ciWilson_eq_err {crit : Crit W} {conf : Confidence W} {n k : Nat} {e : E
   rw [ciWilson_of_guards crit conf h1 h2 h3] at h
   by_cases hq : probOk conf.quantile = true
   · rw [zValue_eq crit conf hq] at h
-    exact Or.inr (Or.inr (Or.inr ⟨h1, h2, h3, finish_eq_err h⟩))
+    exact Or.inr (Or.inr (Or.inr ⟨h1, h2, h3, finishWilson_eq_err h⟩))
   · rw [zValue_panic crit conf (by simpa using hq)] at h; cases h
 
 theorem ciWilsonRatio_of_nonpos (crit : Crit W) (conf : Confidence W) (n : Nat) {rate : W}
@@ -1283,6 +1369,33 @@ theorem unpaired_ciMean_isPanic (crit : Crit XR) (u : Unpaired XR) (conf : Confi
 
 end XR
 
+/-! ## rounded reals: the clamp of `ci_wilson` keeps every `Ok` inside `[0, 1]` -/
+
+/-- on the reals with an arbitrary rounding function after every operation (`max`/`min` do not
+    round): every `Ok` of the clamped constructor is two-sided with `0 ≤ lo ≤ hi ≤ 1` -/
+theorem Proportion.finishWilson_ok_unit_RR {fl : ℝ → ℝ} {conf : Confidence (RR fl)} {m s : RR fl}
+    {i : Interval (RR fl)} (h : Proportion.finishWilson conf m s = .ok i) :
+    ∃ lo hi : RR fl, i = .twoSided lo hi ∧ 0 ≤ lo.val ∧ lo.val ≤ hi.val ∧ hi.val ≤ 1 := by
+  obtain ⟨lo, hi, rfl, hg, k1, k2, k3⟩ := Proportion.finishWilson_eq_ok h
+  have hle : lo.val ≤ hi.val := by
+    by_contra hc
+    have : gt lo hi = true := (RR.gt_iff lo hi).mpr (not_le.mp hc)
+    rw [hg] at this; cases this
+  refine ⟨lo, hi, rfl, ?_, hle, ?_⟩ <;> cases conf
+  · rw [(k1 rfl).1, fmax_val]; exact le_max_right _ _
+  · rw [(k2 rfl).1, fmax_val]; exact le_max_right _ _
+  · rw [(k3 rfl).1]; simp
+  · rw [(k1 rfl).2, fmin_val]; exact min_le_right _ _
+  · rw [(k2 rfl).2]; simp
+  · rw [(k3 rfl).2, fmin_val]; exact min_le_right _ _
+
+/-- every `Ok` of `ci_wilson` on rounded reals — any rounding function, any critical value — is a
+    two-sided interval with `0 ≤ lo ≤ hi ≤ 1` -/
+theorem Proportion.ciWilson_ok_unit_RR {fl : ℝ → ℝ} (crit : Crit (RR fl)) (conf : Confidence (RR fl))
+    (n k : Nat) {i : Interval (RR fl)} (h : Proportion.ciWilson crit conf n k = .ok i) :
+    ∃ lo hi : RR fl, i = .twoSided lo hi ∧ 0 ≤ lo.val ∧ lo.val ≤ hi.val ∧ hi.val ≤ 1 :=
+  Proportion.finishWilson_ok_unit_RR (Proportion.ciWilson_eq_ok' h).2.2.2.2
+
 /-! ## `Rex`: the same, away from the `0/0` the exact-real carrier cannot represent -/
 
 /-- at exact reals the effective degrees of freedom are positive unless both samples are constant -/
@@ -1556,27 +1669,135 @@ theorem finish_fin {conf : Confidence XR} {m s : ℝ} {i : Interval XR}
   · obtain ⟨rfl, rfl⟩ := k3 rfl
     exact ⟨_, _, rfl, rfl, by simpa using hg⟩
 
-theorem ciWilson_ok_finIv (crit : Crit XR) (conf : Confidence XR) (n k : Nat)
-    (hc : ∀ r, Scalar.isFinite (crit r) = true) {i : Interval XR}
-    (h : Proportion.ciWilson crit conf n k = .ok i) : FinIv i := by
-  obtain ⟨h1, h2, h3, hq, _⟩ := Proportion.ciWilson_eq_ok h
-  rw [Proportion.ciWilson_of_guards crit conf h1 h2 h3, zValue_eq crit conf hq] at h
-  obtain ⟨z, hz⟩ := (isFinite_iff _).mp (hc (.z conf.quantile))
-  have hn : (4 : ℝ) ≤ n := by exact_mod_cast (show 4 ≤ n by omega)
-  have hk : (0 : ℝ) ≤ k := Nat.cast_nonneg _
-  have hkn : (k : ℝ) ≤ n := by exact_mod_cast h1
-  have hd : (n : ℝ) + z * z ≠ 0 := by nlinarith [mul_self_nonneg z]
-  have hn0 : (n : ℝ) ≠ 0 := by linarith
-  have h2' : (1 : ℝ) + 1 ≠ 0 := by norm_num
-  have h4' : (1 : ℝ) + 1 + (1 + 1) ≠ 0 := by norm_num
-  have harg : 0 ≤ (k : ℝ) * (n - k) / n + z * z / (1 + 1 + (1 + 1)) := by
-    have : 0 ≤ (k : ℝ) * (n - k) / n := div_nonneg (mul_nonneg hk (by linarith)) (by linarith)
-    have : 0 ≤ z * z / (1 + 1 + (1 + 1)) := div_nonneg (mul_self_nonneg z) (by norm_num)
-    linarith
-  simp only [Outcome.bind_ok, hz, Proportion.wilsonCentre, Proportion.wilsonSpan, ofNat_eq, one_eq,
-    mul_fin_fin, add_fin_fin, sub_fin_fin, div_fin_fin_of_ne _ h2', div_fin_fin_of_ne _ h4',
-    div_fin_fin_of_ne _ hd, div_fin_fin_of_ne _ hn0, sqrt_fin_of_nonneg harg] at h
-  exact finish_fin h
+/-! ### the clamp of `ci_wilson` on `XR`: `fmax x 0` and `fmin x 1` (`f64::max` / `f64::min`) -/
+
+@[simp] theorem fmax_fin_fin (a b : ℝ) : fmax (fin a) (fin b) = fin (max a b) := by
+  unfold fmax
+  by_cases h : a < b
+  · simp [h, max_eq_right h.le]
+  · have h' : b ≤ a := not_lt.mp h
+    simp [h, h']
+
+@[simp] theorem fmin_fin_fin (a b : ℝ) : fmin (fin a) (fin b) = fin (min a b) := by
+  unfold fmin
+  by_cases h : b < a
+  · simp [h, min_eq_right h.le]
+  · have h' : a ≤ b := not_lt.mp h
+    simp [h, h']
+
+/-- a NaN argument gives the other argument -/
+@[simp] theorem fmax_nan_left (x : XR) : fmax nan x = x := by unfold fmax; cases x <;> simp
+@[simp] theorem fmin_nan_left (x : XR) : fmin nan x = x := by unfold fmin; cases x <;> simp
+@[simp] theorem fmax_pinf_fin (b : ℝ) : fmax pinf (fin b) = pinf := by unfold fmax; simp
+@[simp] theorem fmax_ninf_fin (b : ℝ) : fmax ninf (fin b) = fin b := by unfold fmax; simp
+@[simp] theorem fmin_pinf_fin (b : ℝ) : fmin pinf (fin b) = fin b := by unfold fmin; simp
+@[simp] theorem fmin_ninf_fin (b : ℝ) : fmin ninf (fin b) = ninf := by unfold fmin; simp
+
+/-- `x.max(0.)` is `+∞` or a finite number `≥ 0` — whatever `x` is (NaN and `−∞` give `0`) -/
+theorem fmax_zero_cases (x : XR) :
+    fmax x (fin 0) = pinf ∨ ∃ r : ℝ, fmax x (fin 0) = fin r ∧ 0 ≤ r := by
+  cases x with
+  | nan => exact Or.inr ⟨0, by simp, le_rfl⟩
+  | ninf => exact Or.inr ⟨0, by simp, le_rfl⟩
+  | pinf => exact Or.inl (by simp)
+  | fin r => exact Or.inr ⟨max r 0, by simp, le_max_right _ _⟩
+
+/-- `x.min(1.)` is `−∞` or a finite number `≤ 1` — whatever `x` is (NaN and `+∞` give `1`) -/
+theorem fmin_one_cases (x : XR) :
+    fmin x (fin 1) = ninf ∨ ∃ r : ℝ, fmin x (fin 1) = fin r ∧ r ≤ 1 := by
+  cases x with
+  | nan => exact Or.inr ⟨1, by simp, le_rfl⟩
+  | ninf => exact Or.inl (by simp)
+  | pinf => exact Or.inr ⟨1, by simp, le_rfl⟩
+  | fin r => exact Or.inr ⟨min r 1, by simp, min_le_right _ _⟩
+
+/-- the clamped low bound of `ci_wilson`: never NaN, and `0 ≤ low` holds as an IEEE comparison -/
+theorem fmax_zero_ne_nan (x : XR) : fmax x (fin 0) ≠ nan := by
+  rcases fmax_zero_cases x with h | ⟨r, h, _⟩ <;> rw [h] <;> simp
+
+theorem zero_le_fmax_zero (x : XR) : Cmp.le (fin 0) (fmax x (fin 0)) = true := by
+  rcases fmax_zero_cases x with h | ⟨r, h, hr⟩
+  · rw [h]; simp
+  · rw [h]; simp [hr]
+
+/-- the clamped high bound of `ci_wilson`: never NaN, and `high ≤ 1` holds as an IEEE comparison -/
+theorem fmin_one_ne_nan (x : XR) : fmin x (fin 1) ≠ nan := by
+  rcases fmin_one_cases x with h | ⟨r, h, _⟩ <;> rw [h] <;> simp
+
+theorem fmin_one_le_one (x : XR) : Cmp.le (fmin x (fin 1)) (fin 1) = true := by
+  rcases fmin_one_cases x with h | ⟨r, h, hr⟩
+  · rw [h]; simp
+  · rw [h]; simp [hr]
+
+/-- two finite bounds with `0 ≤ lo ≤ hi ≤ 1` -/
+def UnitIv : Interval XR → Prop
+  | .twoSided lo hi => ∃ a b : ℝ, lo = fin a ∧ hi = fin b ∧ 0 ≤ a ∧ a ≤ b ∧ b ≤ 1
+  | .upper _ => False
+  | .lower _ => False
+
+theorem UnitIv.finIv {i : Interval XR} (h : UnitIv i) : FinIv i := by
+  cases i <;> simp only [UnitIv, FinIv] at *
+  obtain ⟨a, b, rfl, rfl, _, hab, _⟩ := h
+  exact ⟨a, b, rfl, rfl, hab⟩
+
+/-- a low bound that is `+∞` or finite `≥ 0` and a high bound that is `−∞` or finite `≤ 1`, accepted
+    by `Interval::new` (`¬ lo > hi`): both are finite and `0 ≤ lo ≤ hi ≤ 1` -/
+theorem unit_of_not_gt {lo hi : XR} (hlo : lo = pinf ∨ ∃ r : ℝ, lo = fin r ∧ 0 ≤ r)
+    (hhi : hi = ninf ∨ ∃ r : ℝ, hi = fin r ∧ r ≤ 1) (hg : gt lo hi = false) :
+    ∃ a b : ℝ, lo = fin a ∧ hi = fin b ∧ 0 ≤ a ∧ a ≤ b ∧ b ≤ 1 := by
+  rcases hlo with rfl | ⟨a, rfl, ha⟩ <;> rcases hhi with rfl | ⟨b, rfl, hb⟩
+  · simp at hg
+  · simp at hg
+  · simp at hg
+  · exact ⟨a, b, rfl, rfl, ha, by simpa using hg, hb⟩
+
+/-- `Interval::new` rejects two finite bounds with `hi < lo` -/
+theorem new_fin_of_lt {a b : ℝ} (h : b < a) :
+    (liftI (Interval.new (fin a) (fin b)) : Outcome (Err XR) (Interval XR)) =
+      .err (.interval .invalidBounds) := by
+  simp [Interval.new, liftI, h]
+
+/-- every `Ok` of the clamped constructor on `XR` — for arbitrary arguments, NaN and `±∞` included —
+    is a two-sided interval with finite bounds and `0 ≤ lo ≤ hi ≤ 1` -/
+theorem finishWilson_ok_unitIv {conf : Confidence XR} {m s : XR} {i : Interval XR}
+    (h : Proportion.finishWilson conf m s = .ok i) : UnitIv i := by
+  obtain ⟨lo, hi, rfl, hg, k1, k2, k3⟩ := Proportion.finishWilson_eq_ok h
+  have h0 : (fin 0 : XR) = pinf ∨ ∃ r : ℝ, (fin 0 : XR) = fin r ∧ 0 ≤ r := Or.inr ⟨0, rfl, le_rfl⟩
+  have h1 : (fin 1 : XR) = ninf ∨ ∃ r : ℝ, (fin 1 : XR) = fin r ∧ r ≤ 1 := Or.inr ⟨1, rfl, le_rfl⟩
+  cases conf
+  · obtain ⟨rfl, rfl⟩ := k1 rfl
+    exact unit_of_not_gt (fmax_zero_cases _) (fmin_one_cases _) hg
+  · obtain ⟨rfl, rfl⟩ := k2 rfl
+    exact unit_of_not_gt (fmax_zero_cases _) h1 hg
+  · obtain ⟨rfl, rfl⟩ := k3 rfl
+    exact unit_of_not_gt h0 (fmin_one_cases _) hg
+
+/-- every `Ok` of `ci_wilson` on `XR`, whatever the critical value (finite, infinite or NaN):
+    two finite bounds with `0 ≤ lo ≤ hi ≤ 1` -/
+theorem ciWilson_ok_unitIv (crit : Crit XR) (conf : Confidence XR) (n k : Nat) {i : Interval XR}
+    (h : Proportion.ciWilson crit conf n k = .ok i) : UnitIv i :=
+  finishWilson_ok_unitIv (Proportion.ciWilson_eq_ok' h).2.2.2.2
+
+/-- (no hypothesis on the critical value is needed any more: the clamp absorbs NaN and `±∞`) -/
+theorem ciWilson_ok_finIv (crit : Crit XR) (conf : Confidence XR) (n k : Nat) {i : Interval XR}
+    (h : Proportion.ciWilson crit conf n k = .ok i) : FinIv i :=
+  (ciWilson_ok_unitIv crit conf n k h).finIv
+
+/-- the `InvalidBounds` error of `ci_wilson` on `XR` is a genuine `low > high` between two numbers
+    that are not NaN, with `0 ≤ low` and `high ≤ 1` (as IEEE comparisons) -/
+theorem ciWilson_invalidBounds_XR (crit : Crit XR) (conf : Confidence XR) (n k : Nat)
+    (h : Proportion.ciWilson crit conf n k = .err (.interval .invalidBounds)) :
+    ∃ lo hi : XR, Cmp.lt hi lo = true ∧ lo ≠ nan ∧ hi ≠ nan ∧
+      Cmp.le (fin 0) lo = true ∧ Cmp.le hi (fin 1) = true := by
+  obtain ⟨_, _, _, _, lo, hi, hg, k1, k2, k3⟩ := Proportion.ciWilson_eq_invalidBounds h
+  refine ⟨lo, hi, hg, ?_⟩
+  cases conf
+  · obtain ⟨rfl, rfl⟩ := k1 rfl
+    exact ⟨fmax_zero_ne_nan _, fmin_one_ne_nan _, zero_le_fmax_zero _, fmin_one_le_one _⟩
+  · obtain ⟨rfl, rfl⟩ := k2 rfl
+    exact ⟨fmax_zero_ne_nan _, by simp, zero_le_fmax_zero _, by simp⟩
+  · obtain ⟨rfl, rfl⟩ := k3 rfl
+    exact ⟨by simp, fmin_one_ne_nan _, by simp, fmin_one_le_one _⟩
 
 theorem ciZNormal_ok_finIv (crit : Crit XR) (conf : Confidence XR) (n k : Nat)
     (hc : ∀ r, Scalar.isFinite (crit r) = true) {i : Interval XR}
@@ -1601,12 +1822,30 @@ theorem ciZNormal_ok_finIv (crit : Crit XR) (conf : Confidence XR) (n k : Nat)
   exact finish_fin h
 
 theorem ciWilsonRatio_ok_finIv (crit : Crit XR) (conf : Confidence XR) (n : Nat) (rate : XR)
-    (hc : ∀ r, Scalar.isFinite (crit r) = true) {i : Interval XR}
+    {i : Interval XR}
     (h : Proportion.ciWilsonRatio crit conf n rate = .ok i) : FinIv i := by
   by_cases hr : Cmp.le rate (NumOps.zero : XR) = true
   · rw [Proportion.ciWilsonRatio_of_nonpos crit conf n hr] at h; cases h
   · rw [Proportion.ciWilsonRatio_of_pos crit conf n (by simpa using hr)] at h
-    exact ciWilson_ok_finIv crit conf n _ hc h
+    exact ciWilson_ok_finIv crit conf n _ h
+
+/-- `ci_wilson_ratio` on `XR`, whatever the critical value and the rate -/
+theorem ciWilsonRatio_ok_unitIv (crit : Crit XR) (conf : Confidence XR) (n : Nat) (rate : XR)
+    {i : Interval XR} (h : Proportion.ciWilsonRatio crit conf n rate = .ok i) : UnitIv i := by
+  by_cases hr : Cmp.le rate (NumOps.zero : XR) = true
+  · rw [Proportion.ciWilsonRatio_of_nonpos crit conf n hr] at h; cases h
+  · rw [Proportion.ciWilsonRatio_of_pos crit conf n (by simpa using hr)] at h
+    exact ciWilson_ok_unitIv crit conf n _ h
+
+/-- were `inverse_cdf` to answer NaN, `ci_wilson` past its guards returns `Ok([0, 1])` for every kind
+    of confidence: both Wilson numbers are NaN, `NaN.max(0.) = 0`, `NaN.min(1.) = 1` -/
+theorem ciWilson_nan_crit (conf : Confidence XR) {n k : Nat} (h1 : k ≤ n) (h2 : 2 ≤ k)
+    (h3 : 2 ≤ n - k) (hq : probOk conf.quantile = true) :
+    Proportion.ciWilson (fun _ => nan) conf n k = .ok (.twoSided (fin 0) (fin 1)) := by
+  rw [Proportion.ciWilson_of_guards _ conf h1 h2 h3, zValue_eq _ conf hq]
+  simp only [Outcome.bind_ok, Proportion.wilsonCentre, Proportion.wilsonSpan, mul_nan_left,
+    div_nan_left, add_nan_right]
+  cases conf <;> simp [Proportion.finishWilson, Interval.new, liftI] <;> norm_num
 
 /-- `quantile::ci` on `XR` data: the bounds are elements of the data, and the sort has already
     panicked on any NaN (every `Ok` needs at least four elements) -/
@@ -1735,12 +1974,84 @@ theorem ciIndices_ok :
     simp only [Outcome.bind_ok, Proportion.wilsonCentre, Proportion.wilsonSpan, XR.ofNat_eq, XR.one_eq,
       XR.mul_fin_fin, XR.add_fin_fin, XR.sub_fin_fin, XR.div_fin_fin_of_ne _ h2,
       XR.div_fin_fin_of_ne _ h4, XR.div_fin_fin_of_ne _ h10', XR.div_fin_fin_of_ne _ h10,
-      XR.sqrt_fin_of_nonneg harg, Proportion.finish, Interval.new]
+      XR.sqrt_fin_of_nonneg harg, Proportion.finishWilson, XR.zero_eq, XR.fmax_fin_fin,
+      XR.fmin_fin_fin, Interval.new]
     norm_num [liftI]
   unfold Quantile.ciIndices
   simp only [hr, hw, Outcome.bind_ok, Interval.toPair]
   simp [Quantile.index]
   norm_num
+
+/-- a NaN critical value on `XR`: `ci_wilson` answers `Ok([0, 1])` -/
+theorem wilson_nan_crit_ok :
+    Proportion.ciWilson (fun _ => XR.nan) (.twoSided (XR.fin 0.95)) 10 5 =
+      .ok (.twoSided (XR.fin 0) (XR.fin 1)) :=
+  XR.ciWilson_nan_crit _ (by norm_num) (by norm_num) (by norm_num) conf95_probOk_XR
+
+/-- a finite critical value on `XR`: five successes in ten, `z = 0` gives `Ok([1/2, 1/2])` -/
+theorem wilson_ok_XR :
+    Proportion.ciWilson (fun _ => XR.fin 0) (.twoSided (XR.fin 0.95)) 10 5 =
+      .ok (.twoSided (XR.fin (1/2)) (XR.fin (1/2))) := by
+  have hq := conf95_probOk_XR
+  have h10 : ((10 : ℕ) : ℝ) ≠ 0 := by norm_num
+  have h10' : ((10 : ℕ) : ℝ) + 0 * 0 ≠ 0 := by norm_num
+  have h2 : (1 : ℝ) + 1 ≠ 0 := by norm_num
+  have h4 : (1 : ℝ) + 1 + (1 + 1) ≠ 0 := by norm_num
+  rw [Proportion.ciWilson_of_guards _ _ (by norm_num) (by norm_num) (by norm_num), zValue_eq _ _ hq]
+  have harg : (0:ℝ) ≤ ((5:ℕ):ℝ) * (((10:ℕ):ℝ) - ((5:ℕ):ℝ)) / ((10:ℕ):ℝ) + 0 * 0 / (1 + 1 + (1 + 1)) := by
+    norm_num
+  simp only [Outcome.bind_ok, Proportion.wilsonCentre, Proportion.wilsonSpan, XR.ofNat_eq, XR.one_eq,
+    XR.mul_fin_fin, XR.add_fin_fin, XR.sub_fin_fin, XR.div_fin_fin_of_ne _ h2,
+    XR.div_fin_fin_of_ne _ h4, XR.div_fin_fin_of_ne _ h10', XR.div_fin_fin_of_ne _ h10,
+    XR.sqrt_fin_of_nonneg harg, Proportion.finishWilson, XR.zero_eq, XR.fmax_fin_fin,
+    XR.fmin_fin_fin, Interval.new]
+  norm_num [liftI]
+
+/-- a negative critical value on `XR` (the one way left to `InvalidBounds`): `z = −1`, five successes
+    in ten — the span is negative, so `low = centre + |span| > centre − |span| = high` -/
+theorem wilson_invalidBounds_XR :
+    Proportion.ciWilson (fun _ => XR.fin (-1)) (.twoSided (XR.fin 0.95)) 10 5 =
+      .err (.interval .invalidBounds) := by
+  have hq := conf95_probOk_XR
+  have h10 : ((10 : ℕ) : ℝ) ≠ 0 := by norm_num
+  have h10' : ((10 : ℕ) : ℝ) + (-1) * (-1) ≠ 0 := by norm_num
+  have h2 : (1 : ℝ) + 1 ≠ 0 := by norm_num
+  have h4 : (1 : ℝ) + 1 + (1 + 1) ≠ 0 := by norm_num
+  rw [Proportion.ciWilson_of_guards _ _ (by norm_num) (by norm_num) (by norm_num), zValue_eq _ _ hq]
+  have harg : (0:ℝ) ≤ ((5:ℕ):ℝ) * (((10:ℕ):ℝ) - ((5:ℕ):ℝ)) / ((10:ℕ):ℝ) +
+      (-1) * (-1) / (1 + 1 + (1 + 1)) := by norm_num
+  simp only [Outcome.bind_ok, Proportion.wilsonCentre, Proportion.wilsonSpan, XR.ofNat_eq, XR.one_eq,
+    XR.mul_fin_fin, XR.add_fin_fin, XR.sub_fin_fin, XR.div_fin_fin_of_ne _ h2,
+    XR.div_fin_fin_of_ne _ h4, XR.div_fin_fin_of_ne _ h10', XR.div_fin_fin_of_ne _ h10,
+    XR.sqrt_fin_of_nonneg harg, Proportion.finishWilson, XR.zero_eq, XR.fmax_fin_fin,
+    XR.fmin_fin_fin]
+  refine XR.new_fin_of_lt ?_
+  refine lt_of_le_of_lt (min_le_left _ _) (lt_of_lt_of_le ?_ (le_max_left _ _))
+  have key : ∀ c x : ℝ, x < 0 → c + x < c - x := fun c x hx => by linarith
+  refine key _ _ ?_
+  exact mul_neg_of_neg_of_pos (by norm_num) (Real.sqrt_pos.mpr (by norm_num))
+
+/-- an `Ok` of `ci_wilson` in exact arithmetic: five successes in ten, `z = 0` -/
+theorem wilson_ok_Rex : ∃ i : Interval Rex,
+    Proportion.ciWilson (constCrit 0 : Crit Rex) (.twoSided (inj 0.95)) 10 5 = .ok i := by
+  rw [Proportion.ciWilson_of_guards _ _ (by norm_num) (by norm_num) (by norm_num),
+    zValue_eq _ _ conf95_probOk]
+  simp only [Outcome.bind_ok, Proportion.finishWilson]
+  rcases liftI_new_cases (W := Rex)
+      (fmax (sub (Proportion.wilsonCentre (Scalar.ofNat 10 : Rex) (Scalar.ofNat 5)
+          ((constCrit 0 : Crit Rex) (.z (Confidence.twoSided (inj 0.95 : Rex)).quantile)))
+        (Proportion.wilsonSpan (Scalar.ofNat 10 : Rex) (Scalar.ofNat 5)
+          ((constCrit 0 : Crit Rex) (.z (Confidence.twoSided (inj 0.95 : Rex)).quantile)))) zero)
+      (fmin (add (Proportion.wilsonCentre (Scalar.ofNat 10 : Rex) (Scalar.ofNat 5)
+          ((constCrit 0 : Crit Rex) (.z (Confidence.twoSided (inj 0.95 : Rex)).quantile)))
+        (Proportion.wilsonSpan (Scalar.ofNat 10 : Rex) (Scalar.ofNat 5)
+          ((constCrit 0 : Crit Rex) (.z (Confidence.twoSided (inj 0.95 : Rex)).quantile)))) one)
+    with ⟨h, _⟩ | ⟨_, h⟩
+  · exact ⟨_, h⟩
+  · exfalso
+    rw [RR.gt_iff, fmax_val, fmin_val] at h
+    simp [Proportion.wilsonCentre, Proportion.wilsonSpan, constCrit] at h
+    norm_num at h
 
 /-- reciprocal-space state after the reciprocals `1, 2` (data `1, 1/2`): sum 3, sum of squares 5 -/
 def r12 : Arith XR := ⟨⟨XR.fin 3, XR.fin 0⟩, ⟨XR.fin 5, XR.fin 0⟩, 2⟩
